@@ -42,6 +42,8 @@ operator == (const TaskBase& lhs,
 		   lhs.destination == rhs.destination;
 }
 
+#pragma pack(pop)
+
 //------------------------------------------------------------------------------
 
 template <typename TPayload>
@@ -103,8 +105,6 @@ struct TaskT<void> final
 {
 	using TaskBase::TaskBase;
 };
-
-#pragma pack(pop)
 
 ////////////////////////////////////////////////////////////////////////////////
 
